@@ -65,12 +65,12 @@ def strategy(ctx):
         # cdef(..., packed=True) against __attribute__((packed)): bitfields may then start in the middle
         # of what would otherwise be padding
         return {'members': members, 'prefill': prefill, 'stores': stores,
-                'packed': draw(st.integers(0, 3)) == 0}
+                'packed': draw(st.integers(0, 3)) == 0, 'union': draw(st.integers(0, 3)) == 0}
     # one gcc invocation per Hypothesis case: process creation is the scarce resource here
     return st.lists(case(), min_size=1, max_size=BATCH[ctx.tier])
 
 
-def _decl(members, k=''):
+def _decl(members, k='', kw='struct'):
     lines, names = [], []
     j = 0
     for m in members:
@@ -80,26 +80,30 @@ def _decl(members, k=''):
             lines.append('%s f%d:%d;' % (m[1], len(names), m[2]))
             names.append('f%d' % len(names))
         j += 1
-    return 'struct s%s { %s };' % (k, ' '.join(lines)), names
+    return '%s s%s { %s };' % (kw, k, ' '.join(lines)), names
 
 
-def _c_source(decl, names, members, k, packed=False):
+def _c_source(decl, names, members, k, packed=False, kw='struct'):
     bf = [m for m in members if m[0] == 'bf']
     if packed:
         decl = decl[:-1] + ' __attribute__((packed));'
-    out = [decl, 'int size_s%s(void) { return (int)sizeof(struct s%s); }' % (k, k)]
+    out = [decl, 'int size_s%s(void) { return (int)sizeof(%s s%s); }' % (k, kw, k)]
     for i, n in enumerate(names):
         signed = not (bf[i][1].startswith('unsigned') or bf[i][1] == '_Bool')
         rt = 'long long' if signed else 'unsigned long long'
-        out.append('%s get%s_%d(struct s%s *p) { return p->%s; }' % (rt, k, i, k, n))
-        out.append('void set%s_%d(struct s%s *p, %s v) { p->%s = v; }' % (k, i, k, rt, n))
+        out.append('%s get%s_%d(%s s%s *p) { return p->%s; }' % (rt, k, i, kw, k, n))
+        out.append('void set%s_%d(%s s%s *p, %s v) { p->%s = v; }' % (k, i, kw, k, rt, n))
     return '\n'.join(out) + '\n'
+
+
+def _kw(case):
+    return 'union' if case.get('union') else 'struct'
 
 
 def prop(batch, ctx):
     import os
-    src = ''.join(_c_source(_decl(c['members'], k)[0], _decl(c['members'], k)[1], c['members'], k,
-                            c.get('packed', False))
+    src = ''.join(_c_source(_decl(c['members'], k, _kw(c))[0], _decl(c['members'], k, _kw(c))[1], c['members'], k,
+                            c.get('packed', False), _kw(c))
                   for k, c in enumerate(batch))
     so = cc.compile_shared(src, ctx.tmp)
     lib = ctypes.CDLL(so)
@@ -122,13 +126,16 @@ def prop(batch, ctx):
 def _one(case, k, lib, ctx):
     import cffi
     members = case['members']
-    decl, names = _decl(members, k)
+    kw = _kw(case)
+    decl, names = _decl(members, k, kw)
     bf = [m for m in members if m[0] == 'bf']
+    if kw == 'union':
+        ctx.event('union: every member starts at bit 0')
     ffi = cffi.FFI()
     if case.get('packed'):
         ffi.cdef(decl, packed=True)
         try:
-            size = ffi.sizeof('struct s%d' % k)
+            size = ffi.sizeof('%s s%d' % (kw, k))
         except NotImplementedError:
             # cffi declines some packed bitfield layouts outright (not a wrong answer)
             ctx.event('packed: layout declined by cffi (NotImplementedError)')
@@ -136,12 +143,12 @@ def _one(case, k, lib, ctx):
         ctx.event('packed struct')
     else:
         ffi.cdef(decl)
-    size = ffi.sizeof('struct s%d' % k)
+    size = ffi.sizeof('%s s%d' % (kw, k))
     if 1:
         if getattr(lib, 'size_s%d' % k)() != size:
             # layout is C01's subject; without equal sizes the storage cannot be shared
             ctx.fail('sizeof(struct s): cffi %d, gcc %d' % (size, getattr(lib, 'size_s%d' % k)()), decl=decl)
-        p = ffi.new('struct s%d *' % k)
+        p = ffi.new('%s s%d *' % (kw, k))
         buf = ffi.buffer(p)
         addr = int(ffi.cast('uintptr_t', p))
         # bit masks from the C side
